@@ -338,26 +338,37 @@ class Analyzer:
                 "overflow_exc": [short_exc(p.value.cls) for p in overflow], "line": f.node.lineno}
 
     def classify_varint_writer(self, f, s, v, vparam, sparam, paths):
+        """A function whose every path writes the (non-negative) value as a run of single bytes -- in a loop,
+        through unrolled fast paths, several bytes per write() or one -- is a varint writer.  Whether the
+        bytes are the canonical LEB128 ones is checked separately (varint.check_varint_writer)."""
         rets = [p for p in paths if p.outcome == "return"]
         if len(rets) < 2 or len(rets) != len(paths):
             return None
-        out = {}
+        out = []
         for p in rets:
-            effs = [e for e in p.effects if e[0] in ("write", "read", "xread", "codec", "seek", "tell", "stream-other", "getvalue")]
+            effs = [e for e in p.effects if e[0] in ("write", "read", "xread", "codec", "seek", "tell", "stream-other", "getvalue", "wvarint")]
             if not effs or any(e[0] != "write" or e[1] is not s for e in effs):
                 return None
             bvs = []
             for e in effs:
                 b = e[2]
-                if not (isinstance(b, Sym) and b.term[0] == "to_bytes" and b.info.get("len") == 1):
+                if isinstance(b, Sym) and b.term[0] == "to_bytes" and b.info.get("len") == 1:
+                    iv = b.info["intval"]
+                    bvs.append(BV.const(iv) if isinstance(iv, int) else iv.info.get("bv"))
+                elif isinstance(b, Sym) and b.term[0] == "bytes-of":
+                    for iv in b.info["byte_values"]:
+                        bvs.append(BV.const(iv) if isinstance(iv, int) else (iv.info.get("bv") if isinstance(iv, Sym) else None))
+                elif isinstance(b, bytes):
+                    bvs.extend(BV.const(x) for x in b)
+                else:
                     return None
-                iv = b.info["intval"]
-                bvs.append(BV.const(iv) if isinstance(iv, int) else iv.info.get("bv"))
-            out[len(effs)] = {"bytes": bvs, "conds": [(f[0], f[1]) for f in p.facts]}
-        if sorted(out) != list(range(1, len(rets) + 1)):
-            return None
-        return {"kind": "wvarint", "fn": f.ref, "paths": [out[k] for k in sorted(out)], "value_param": vparam,
-                "stream_param": sparam, "value_term": v.term, "line": f.node.lineno, "max_bytes": len(rets)}
+            out.append({"bytes": bvs, "conds": [(f_[0], f_[1]) for f_ in p.facts]})
+        out.sort(key=lambda d: len(d["bytes"]))
+        atom = {"kind": "wvarint", "fn": f.ref, "paths": out, "value_param": vparam, "stream_param": sparam,
+                "value_term": v.term, "line": f.node.lineno, "max_bytes": max(len(d["bytes"]) for d in out)}
+        from . import varint
+        atom["problems"] = varint.check_varint_writer(atom)
+        return atom
 
     def emit_atom(self, atom, f, args, kwargs, run, node):
         I = self.I
